@@ -63,8 +63,10 @@ structure DEnd (s : Nat) (st : Stream) (cl : Client) : Prop where
   /-- **drained**: everything committed has been appended, and the source had delivered all its frames -/
   drained : st.sto.drained = true → st.sto.disturbed = false → st.sto.clean = true →
       st.sto.appended = (cv st.sinkCh).total ∧ srcComplete st ∧ st.src.cur = none
+  /-- a failed `camera_get_frame` marks the run -/
+  failstop : st.src.pc = .failStop → st.sto.disturbed = true
 
 def DEndP (s : Nat) (st : Stream) (cl : Client) : Prop :=
-  st.cam.failAt = none → st.cam.emptyEvery = 0 → cl.misused = false → 0 < st.F → DEnd s st cl
+  st.cam.emptyEvery = 0 → cl.misused = false → 0 < st.F → DEnd s st cl
 
 end AcqVerif.Runtime
